@@ -1,7 +1,15 @@
 import SimplicityModel.Driver.ProgUtil
-/-! C04: `infer P|N <plan> [T:name:src:tgt…]` → `ok <arrow_0> … <arrow_{n-1}>` | `err` -/
+import SimplicityModel.Prog.InferUB
+/-! C04: `infer P|N <plan> [T:name:src:tgt…]` → `ok <arrow_0> … <arrow_{n-1}>` | `err`
+(reference unifier on the constraint set), and
+`inferub P|N <i_1,…,i_k> <plan> [T:…]` → the same answer format, computed by the transcribed
+union-bound algorithm (`Prog.inferUB`) constructing the nodes in the order `i_1 … i_k`; a node that
+is not constructed prints `?`. -/
 namespace Drv.C04
 open Prog Drv.ProgUtil
+
+def parseOrder (s : String) : Option (List Nat) :=
+  (s.splitOn ",").mapM String.toNat?
 
 def handle : List String → String
   | "infer" :: mode :: rest =>
@@ -17,6 +25,24 @@ def handle : List String → String
         | .occurs => "err"
         | .badPlan => "bad-plan"
         | .fuel => "model-fuel"
+  | "inferub" :: mode :: ord :: rest =>
+    match parseOrder ord, parsePlan rest with
+    | some order, some (p, tail) =>
+      match parseExtras tail {} with
+      | none => "bad-op"
+      | some ex =>
+        match inferUB ex.jetTy p order (mode = "P") with
+        | .ok arrows true =>
+          "ok " ++ " ".intercalate (arrows.toList.map fun a => match a with
+            | some a => arrowText a
+            | none => "?")
+        | .ok _ false => "model-uncovered"
+        | .typeError => "err"
+        | .occurs => "err"
+        | .badPlan => "bad-plan"
+        | .fuel => "model-fuel"
+        | .panic => "model-panic"
+    | _, _ => "bad-op"
   | _ => "bad-op"
 
 end Drv.C04
